@@ -27,9 +27,10 @@ boot.ensure_hashseed()
 from sim import kernel, registry  # noqa: E402
 
 VERIF = boot.VERIF
+OUT = os.environ.get('VERIF_OUT', VERIF)   # where evidence / replays go (redirected by the sensitivity selftest)
 TIERS = {
     # runs: number of seeds; budget: wall-clock cap in seconds (a cap, not a target)
-    'C08': {'quick': {'runs': 24000, 'budget': 150}, 'thorough': {'runs': 400000, 'budget': 1500}},
+    'C08': {'quick': {'runs': 72000, 'budget': 240}, 'thorough': {'runs': 700000, 'budget': 1700}},
     'C04': {'quick': {'runs': 6000, 'budget': 120}, 'thorough': {'runs': 150000, 'budget': 1500}},
     'C07': {'quick': {'runs': 8000, 'budget': 120}, 'thorough': {'runs': 200000, 'budget': 1500}},
     'C11': {'quick': {'runs': 12000, 'budget': 120}, 'thorough': {'runs': 300000, 'budget': 1500}},
@@ -113,8 +114,8 @@ def report_violation(mod, pid, v):
         print(f"HARNESS-NONDETERMINISM: violation {vclass} did not recur when the same plan was re-executed",
               flush=True)
         return None
-    os.makedirs(os.path.join(VERIF, 'replays'), exist_ok=True)
-    path = os.path.join(VERIF, 'replays', f"{pid}-{plan['header'].get('seed')}.json")
+    os.makedirs(os.path.join(OUT, 'replays'), exist_ok=True)
+    path = os.path.join(OUT, 'replays', f"{pid}-{plan['header'].get('seed')}.json")
     small = dict(small)
     small['violation'] = v2
     small['header'] = dict(small['header'], tree=boot.tree_id(), minimised_from=len(plan['events']),
@@ -132,7 +133,7 @@ def report_violation(mod, pid, v):
 
 
 def write_evidence(mod, pid, tier, base, total, wall, nviol):
-    os.makedirs(os.path.join(VERIF, 'evidence'), exist_ok=True)
+    os.makedirs(os.path.join(OUT, 'evidence'), exist_ok=True)
     probes = dict(total['probes'])
     zero = [p for p in getattr(mod, 'EXPECTED_PROBES', []) if not probes.get(p)]
     ev = {
@@ -165,7 +166,7 @@ def write_evidence(mod, pid, tier, base, total, wall, nviol):
         'wall_s': round(wall, 2),
         'violations': nviol,
     }
-    kernel.write_json(os.path.join(VERIF, 'evidence', f'{pid}.json'), ev)
+    kernel.write_json(os.path.join(OUT, 'evidence', f'{pid}.json'), ev)
     for p in zero:
         print(f"WARNING: probe '{p}' never fired in this batch", flush=True)
 
